@@ -123,8 +123,14 @@ func (p *poller) addDialer(c *Conn) error {
 	c.isWAdded = true
 	err := p.addReadWrite(fd)
 	if err != nil {
+		// The caller (DialAsync) returns this error and releases the
+		// connection counter itself: no dial callback and no close notification.
 		p.g.connsUnix[fd] = nil
-		_ = c.closeWithError(err)
+		c.mux.Lock()
+		c.closed = true
+		c.onConnected = nil
+		c.mux.Unlock()
+		_ = syscall.Close(fd)
 	}
 	return err
 }
@@ -149,8 +155,53 @@ func (p *poller) deleteConn(c *Conn) {
 	}
 
 	if c.typ != ConnTypeUDPServer {
+		if c.onConnected != nil {
+			// An asynchronous dial that never completed (refused, timed out,
+			// engine stopped): its outcome goes to the dial callback, exactly once;
+			// there was no open connection, so there is no close notification.
+			if h := c.takeOnConnected(); h != nil {
+				err := c.closeErr
+				if err == nil {
+					err = net.ErrClosed
+				}
+				p.g.Async(func() {
+					defer p.g.wgConn.Done()
+					h(nil, err)
+				})
+				return
+			}
+		}
 		p.g.onClose(c, c.closeErr)
 	}
+}
+
+// takeOnConnected returns the pending dial callback and clears it, so that the
+// poller and a concurrent close (dial timeout, Stop) cannot both report an outcome.
+//
+//go:norace
+func (c *Conn) takeOnConnected() func(c *Conn, err error) {
+	c.mux.Lock()
+	h := c.onConnected
+	c.onConnected = nil
+	c.mux.Unlock()
+	return h
+}
+
+// connectResult returns the error of a finished non-blocking connect, nil on success.
+//
+//go:norace
+func connectResult(fd int, events uint32) error {
+	if events&(syscall.EPOLLERR|syscall.EPOLLHUP) == 0 {
+		return nil
+	}
+	v, err := syscall.GetsockoptInt(fd, syscall.SOL_SOCKET, syscall.SO_ERROR)
+	if err != nil {
+		return err
+	}
+	if v != 0 {
+		return syscall.Errno(v)
+	}
+	return io.EOF
 }
 
 //go:norace
@@ -268,9 +319,17 @@ func (p *poller) readWriteLoop() {
 						if c.onConnected == nil {
 							_ = c.flush()
 						} else {
-							c.onConnected(c, nil)
-							c.onConnected = nil
-							c.resetRead()
+							// An asynchronous connect has finished: report success
+							// only if it really succeeded. A failed connect is reported
+							// through the dial callback by deleteConn.
+							if err := connectResult(fd, ev.Events); err != nil {
+								_ = c.closeWithError(err)
+								continue
+							}
+							if h := c.takeOnConnected(); h != nil {
+								h(c, nil)
+								c.resetRead()
+							}
 						}
 						// EPOLLONESHOT disabled the fd when this event was reported;
 						// if there is no reading event that re-arms it below, do it here,
